@@ -66,9 +66,10 @@ void align_left_shift()
       {
          // Ignore any deeper levels when aligning
       }
-      else if (pc->Is(CT_SEMICOLON))
+      else if (  pc->Is(CT_SEMICOLON)
+              || pc->Is(CT_CASE_COLON))
       {
-         // A semicolon at the same level flushes
+         // A semicolon at the same level flushes, so does the colon of 'case 1 << 2:'
          as.Flush();
          start = Chunk::NullChunkPtr;
       }
